@@ -33,8 +33,8 @@ PY
 cp -r "$SRC/demo" "$S/demo"
 cd "$S/demo"
 go run . > "$S/native.txt" 2>&1
-"$S/gopherjs.clean" build -o out_clean.js . >/dev/null 2>"$S/clean.err" && node out_clean.js > "$S/clean.txt" 2>&1
-"$S/gopherjs.mut" build -o out_mut.js . >/dev/null 2>"$S/mut.err" && node out_mut.js > "$S/mut.txt" 2>&1
+"$S/gopherjs.clean" build -o out_clean.js . >/dev/null 2>"$S/clean.err" && timeout 60 node out_clean.js > "$S/clean.txt" 2>&1
+"$S/gopherjs.mut" build -o out_mut.js . >/dev/null 2>"$S/mut.err" && timeout 60 node out_mut.js 2>&1 | head -c 200000 > "$S/mut.txt"
 # println goes to stderr natively, console.log in JS: compare merged streams
 if cmp -s "$S/clean.txt" "$S/mut.txt"; then echo "$ID: DEMO DOES NOT DISTINGUISH clean from changed"; exit 5; fi
 NATIVE_EQ=no; cmp -s "$S/native.txt" "$S/clean.txt" && NATIVE_EQ=yes
